@@ -43,7 +43,13 @@ def run_case(case):
     try:
         sgs = cg.tx.supergates(c)
     except Exception as ex:
-        return {"nontrivial": True, "failures": [{"kind": "supergates-raises-" + type(ex).__name__, "msg": repr(ex)}]}
+        # class of inputs of known finding D26: several outputs whose cones share gates (the per-cone supergates overlap)
+        g0 = c.graph
+        outs = sorted(c.outputs())
+        gate_cone = {o: {n for n in (nx.ancestors(g0, o) | {o}) if g0.nodes[n]["type"] not in ("input", "0", "1", "x")} for o in outs}
+        shared = any(gate_cone[a] & gate_cone[b] for a in outs for b in outs if a < b)
+        tag = "[outputs-share-logic]" if shared else ""
+        return {"nontrivial": True, "failures": [{"kind": "supergates-raises-" + type(ex).__name__ + tag, "msg": repr(ex)}]}
     gk = ck.graph
     prim_in = set(ck.inputs())
     seen_internal = set()
